@@ -330,6 +330,37 @@ pub fn exec_step(s: &mut Sim, rng: &mut StdRng, st: &Value) -> bool {
             }
             None => false,
         },
+        "pkts" => {
+            // several server packets as one byte stream, cut at the given offsets (any alignment against packet boundaries)
+            let mut all: Vec<u8> = vec![];
+            let mut ends: Vec<(usize, Value)> = vec![];
+            let mut okk = true;
+            for pj in st["pks"].as_array().cloned().unwrap_or_default() {
+                match packet_from_json(s, &pj) {
+                    Some(pk) => {
+                        let b = mqtt::encode(&pk, pj["form"].as_u64().unwrap_or(9) as u8);
+                        all.extend_from_slice(&b);
+                        let abs = mqtt::decode(&b).map(|d| d.abs()).unwrap_or(crate::sim::empty_abs());
+                        ends.push((all.len(), abs));
+                    }
+                    None => okk = false,
+                }
+            }
+            if okk && !all.is_empty() {
+                let mut cuts: Vec<usize> = st["cuts"].as_array().map(|a| a.iter().filter_map(|x| x.as_u64()).map(|x| x as usize).collect()).unwrap_or_default();
+                cuts.retain(|c| *c > 0 && *c < all.len());
+                cuts.sort();
+                cuts.dedup();
+                cuts.push(all.len());
+                let mut prev = 0;
+                for c in cuts {
+                    let done: Vec<Value> = ends.iter().filter(|(e, _)| *e > prev && *e <= c).map(|(_, a)| a.clone()).collect();
+                    s.inject_bytes(&all[prev..c], &[], done);
+                    prev = c;
+                }
+            }
+            okk
+        }
         "raw" => {
             // bytes given literally; `pks` (optional) = abstract records of the packets they complete
             let h = st["hex"].as_str().unwrap_or("");
@@ -454,6 +485,8 @@ pub struct WalkCfg {
     pub multi_sid_pct: u32,
     pub redeliver_pct: u32,
     pub unsolicited_pct: u32,
+    pub chunk_pct: u32,
+    pub burst_pct: u32,
 }
 
 pub fn profile(name: &str) -> WalkCfg {
@@ -480,6 +513,8 @@ pub fn profile(name: &str) -> WalkCfg {
         multi_sid_pct: 0,
         redeliver_pct: 20,
         unsolicited_pct: 0,
+        chunk_pct: 0,
+        burst_pct: 0,
     };
     match name {
         "ops" => base,
@@ -495,6 +530,7 @@ pub fn profile(name: &str) -> WalkCfg {
             w_cancel: 3, ..base
         },
         "wake" => WalkCfg { w_wr: 6, w_spur: 10, w_inbound: 12, ..base },
+        "wakechunk" => WalkCfg { w_wr: 4, w_spur: 6, w_inbound: 20, w_ack: 30, chunk_pct: 60, burst_pct: 50, ..base },
         "mixed" => WalkCfg {
             w_cancel: 4, w_dropst: 2, w_wr: 3, w_inbound: 15, multi_sid_pct: 5, unsolicited_pct: 3,
             endings: vec!["none", "disc", "srvdisc", "eof", "handles", "ctxdrop"], ..base
@@ -549,11 +585,59 @@ pub fn walk(p: &Params, cfg: &WalkCfg, seed: u64) -> (Vec<Value>, Vec<String>) {
     let mut b = Broker { seen: 0, pending: vec![], pings: 0, q2_open: vec![], next_in: 0 };
     let mut next_op = 1usize;
     let sweep_every = p.disc == "sweep";
+    let chunk_pct = cfg.chunk_pct;
+    let burst_pct = cfg.burst_pct;
+    let held_cell: std::cell::RefCell<Vec<Value>> = std::cell::RefCell::new(vec![]);
+    let flush_held = |s: &mut Sim, rng: &mut StdRng, script: &mut Vec<Value>| {
+        let pks: Vec<Value> = std::mem::take(&mut *held_cell.borrow_mut());
+        if pks.is_empty() {
+            return;
+        }
+        let mut ends = vec![];
+        let mut off = 0usize;
+        for pj in &pks {
+            off += packet_from_json(s, pj).map(|p| mqtt::encode(&p, 9).len()).unwrap_or(0);
+            ends.push(off);
+        }
+        let total = off.max(2);
+        let b1 = ends[0];
+        let cuts: Vec<usize> = match rng.gen_range(0..7) {
+            0 => vec![],
+            1 => vec![b1 + 1],
+            2 => vec![b1.saturating_sub(1)],
+            3 => ends.iter().map(|e| e + 1).collect(),
+            4 => ends.iter().map(|e| e + 2).collect(),
+            5 => (1..total).collect(),
+            _ => (0..rng.gen_range(1..4)).map(|_| rng.gen_range(1..total)).collect(),
+        };
+        let st = json!({"a": "pkts", "pks": pks, "cuts": cuts});
+        exec_step(s, rng, &st);
+        script.push(st);
+    };
     let do_step = |s: &mut Sim, rng: &mut StdRng, script: &mut Vec<Value>, st: Value| -> bool {
+        if st["a"] == "pkt" && burst_pct > 0 && rng.gen_range(0..100) < burst_pct && held_cell.borrow().len() < 3 && st["form"].is_null() {
+            held_cell.borrow_mut().push(st["pk"].clone());
+            return true;
+        }
+        flush_held(s, rng, script);
+        let st = if st["a"] == "pkt" && chunk_pct > 0 && rng.gen_range(0..100) < chunk_pct {
+            // deliver this packet as a chunked burst: cut positions chosen among byte-wise, +-1 around the end, random
+            let n = packet_from_json(s, &st["pk"]).map(|p| mqtt::encode(&p, 9).len()).unwrap_or(0);
+            let cuts: Vec<usize> = match rng.gen_range(0..4) {
+                0 => (1..n).collect(),
+                1 => vec![1],
+                2 => vec![n.saturating_sub(1)],
+                _ => (0..rng.gen_range(1..4)).map(|_| rng.gen_range(1..n.max(2))).collect(),
+            };
+            json!({"a": "pkts", "pks": [st["pk"].clone()], "cuts": cuts})
+        } else {
+            st
+        };
         let ok = exec_step(s, rng, &st);
         script.push(st);
         ok
     };
+    // with chunking enabled a broker packet may be delivered together with the next ones, cut at awkward places
     let mut ended = false;
     for _ in 0..cfg.steps {
         // broker observes the wire
@@ -780,6 +864,7 @@ pub fn walk(p: &Params, cfg: &WalkCfg, seed: u64) -> (Vec<Value>, Vec<String>) {
         }
     }
     // ending
+    flush_held(&mut s, &mut rng, &mut script);
     do_step(&mut s, &mut rng, &mut script, json!({"a": "wrmode", "m": "accept", "k": 0}));
     do_step(&mut s, &mut rng, &mut script, json!({"a": "settle", "sweep": true}));
     if !ended {
